@@ -50,6 +50,12 @@ type Tunnel struct {
 	// of a complete packet
 	pending []byte
 
+	// transportMu guards transportIn and outClosed between the handler of
+	// the legacy IN channel and the one watching the legacy OUT channel
+	transportMu sync.Mutex
+	// outClosed is set once the client closed or lost the legacy OUT channel
+	outClosed bool
+
 	// writeMu serialises Write: the packet loop and the goroutine relaying
 	// data from the remote desktop server both write to transportOut
 	writeMu sync.Mutex
